@@ -17,6 +17,9 @@ def selections(names, tier):
     """'all', every non-empty ordered selection of distinct existing names, some with unknown names."""
     out = [['all']]
     n = len(names)
+    if n > 6:
+        # many fields (a count with two digits): a handful of selections whose counts have one digit and two digits
+        return out + [list(names[2:5]), [names[-1], names[0]], list(names[1:11]), list(names)[::-1], [names[3], 'nope']]
     maxk = n if n <= 3 or tier != 'quick' else 2
     for k in range(1, maxk + 1):
         for p in itertools.permutations(names, k):
@@ -228,6 +231,9 @@ def cases():
             lays = families.all_layouts(3, 2 if tier == 'quick' else 3)
             for lay in lays:
                 out.append({'label': '%s/layout%s' % (m.name, lay), 'mesh': m, 'fields': UNIQUE_FIELD_SETS[1], 'layout': [lay], 'geom': 1})
+    # twelve fields: the field count at the end of every FAB header line has two digits, kept counts have one or two
+    for j, mm in enumerate([x for x in families.curated_meshes() if x.name in ('3d-3box-x', '2d-3box', '3d-2lev-mixed')]):
+        out.append({'label': '%s/12-fields' % mm.name, 'mesh': mm, 'fields': ['f%d' % i for i in range(12)], 'layout': families.scatter_layouts(mm, rnd, 1 + j % 2), 'geom': j % 3})
     # header numbers whose shortest repr needs 17 significant digits (copied text must round-trip)
     for j, mm in enumerate([x for x in families.curated_meshes() if x.name in ('3d-2lev-nested', '2d-3lev')]):
         out.append({'label': '%s/17-digit-geometry' % mm.name, 'mesh': mm, 'fields': ['density', 'temp'], 'layout': families.scatter_layouts(mm, rnd, 2), 'geom': 3, 'ref_extra': j})
